@@ -4,6 +4,10 @@
 //!   ranges <0/1 string of 256>  -> ok <k> s-e s-e …   (order of `contiguous_ranges`' Vec)
 //!   w2c <wire>                  -> ok <pad column>
 //!   c2w <pad column>            -> ok <first> <last>
+//!   match <first wire> <8 x (n floats…)> <k> <k x (row n floats…)>
+//!                               -> ok <m> <m x (t-bin wire z[nm] wire-amp-bits pad-amp-bits)>
+//!     (`match_column_inputs` on explicit deconvolved inputs; z rounded to 1e-9 m because it
+//!      goes through `ln`)
 //! The avalanche rotation / mirror checks are implementation-against-implementation oracles:
 //! events are built with `MainEvent::verif_from_signals`, their signals rotated by 8k wires / k
 //! pad columns (all 31 k) or mirrored in the pad rows, and the avalanche multisets compared bit
@@ -13,8 +17,8 @@ use crate::{guarded, Rng, Session};
 use alpha_g_detector::alpha16::aw_map::{TpcWirePosition, TPC_ANODE_WIRES};
 use alpha_g_detector::padwing::map::{TPC_PAD_COLUMNS, TPC_PAD_ROWS};
 use alpha_g_physics::verif::{
-    verif_contiguous_ranges, verif_pad_column_to_wires, verif_pad_response, verif_wire_response,
-    verif_wire_to_pad_column,
+    verif_contiguous_ranges, verif_match_column_inputs, verif_pad_column_to_wires,
+    verif_pad_response, verif_wire_response, verif_wire_to_pad_column,
 };
 use alpha_g_physics::{Avalanche, MainEvent};
 use std::collections::HashMap;
@@ -30,6 +34,15 @@ fn empty_pads() -> Box<Pads> {
     let v: Vec<[Option<Vec<f64>>; TPC_PAD_ROWS]> = (0..TPC_PAD_COLUMNS).map(|_| std::array::from_fn(|_| None)).collect();
     let b: Box<[[Option<Vec<f64>>; TPC_PAD_ROWS]; TPC_PAD_COLUMNS]> = v.into_boxed_slice().try_into().ok().unwrap();
     b
+}
+
+/// `<n> <n bit patterns>` (same float encoding as the C17 requests).
+fn fvec(v: &[f64]) -> String {
+    let mut s = v.len().to_string();
+    for x in v {
+        s.push_str(&format!(" {:016x}", x.to_bits()));
+    }
+    s
 }
 
 fn occ_string(occ: &[bool]) -> String {
@@ -411,6 +424,83 @@ pub fn generate(s: &mut Session, thorough: bool) -> bool {
             _ => {}
         }
         add_ranges(s, "ranges-random", &occ);
+    }
+
+    // (ii-b) match_column_inputs against the model on explicit (deconvolved-looking) inputs:
+    // sparse positive amplitudes, zeros and negatives (filtered by `> 0.0`), peaks on the first
+    // and last rows, inputs of differing lengths
+    let phi_to_wire0: HashMap<u64, usize> =
+        (0..n).map(|w| (TpcWirePosition::try_from(w).unwrap().phi().to_bits(), w)).collect();
+    for i in 0..(if thorough { 4000 } else { 300 }) {
+        let col = rng.below(TPC_PAD_COLUMNS as u64) as usize;
+        let w0 = verif_pad_column_to_wires(col).start;
+        let tmax = rng.range(1, 12) as usize;
+        let mut wire_inputs: [Vec<f64>; 8] = std::array::from_fn(|_| Vec::new());
+        for wi in wire_inputs.iter_mut() {
+            let len = rng.below(tmax as u64 + 1) as usize;
+            *wi = (0..len)
+                .map(|_| match rng.below(5) {
+                    0 => 10f64.powf(4.0 * rng.f64_unit()),
+                    1 => -rng.f64_unit(),
+                    _ => 0.0,
+                })
+                .collect();
+        }
+        let mut rows: std::collections::BTreeMap<usize, Vec<f64>> = Default::default();
+        for _ in 0..rng.range(0, 6) {
+            let centre = match rng.below(6) {
+                0 => 1,
+                1 => TPC_PAD_ROWS - 2,
+                2 => 0,
+                3 => TPC_PAD_ROWS - 1,
+                _ => rng.below(TPC_PAD_ROWS as u64) as usize,
+            };
+            let t = rng.below(tmax as u64) as usize;
+            let b = 10f64.powf(1.0 + 3.0 * rng.f64_unit());
+            let shape: &[f64] = if i % 2 == 0 { &[0.4, 1.0, 0.3] } else { &[0.2, 0.6, 1.0, 0.7, 0.1] };
+            let half = shape.len() / 2;
+            for (d, f) in shape.iter().enumerate() {
+                let r = centre as isize + d as isize - half as isize;
+                if r < 0 || r >= TPC_PAD_ROWS as isize {
+                    continue;
+                }
+                let v = rows.entry(r as usize).or_insert_with(|| vec![0.0; rng.range(0, tmax as u64) as usize]);
+                if t < v.len() {
+                    v[t] += b * f * (0.9 + 0.2 * rng.f64_unit());
+                }
+            }
+        }
+        let mut pad_inputs: Box<[Vec<f64>; TPC_PAD_ROWS]> = vec![Vec::new(); TPC_PAD_ROWS].into_boxed_slice().try_into().ok().unwrap();
+        for (r, v) in &rows {
+            pad_inputs[*r] = v.clone();
+        }
+        let indices: [usize; 8] = std::array::from_fn(|j| w0 + j);
+        let mut req = format!("match {w0}");
+        for wi in wire_inputs.iter() {
+            req.push(' ');
+            req.push_str(&fvec(wi));
+        }
+        req.push_str(&format!(" {}", rows.len()));
+        for (r, v) in &rows {
+            req.push_str(&format!(" {r} {}", fvec(v)));
+        }
+        let (imp, why) = match guarded(|| verif_match_column_inputs(indices, &wire_inputs, &pad_inputs)) {
+            Ok(av) => {
+                let mut sres = format!("ok {}", av.len());
+                let mut why = None;
+                for a in &av {
+                    let w = phi_to_wire0.get(&a.phi.value.to_bits()).copied();
+                    let tb = (a.t.value * 62.5e6).round() as i64;
+                    if w.is_none() || !(a.wire_amplitude > 0.0) || !(a.pad_amplitude > 0.0) || !a.z.value.is_finite() || a.z.value.abs() > 1.152 + 0.004 {
+                        why = Some(format!("avalanche outside the detector or with a non-positive amplitude: {a:?}"));
+                    }
+                    sres.push_str(&format!(" {tb} {} {} {:016x} {:016x}", w.unwrap_or(999), (a.z.value * 1e9).round() as i64, a.wire_amplitude.to_bits(), a.pad_amplitude.to_bits()));
+                }
+                (sres, why)
+            }
+            Err(m) => (format!("panic {m}"), Some(format!("match_column_inputs panicked: {m}"))),
+        };
+        s.push_oracle("match-column", req, imp, why);
     }
 
     // (iii) rotation of whole events, all 31 non-trivial rotations
